@@ -183,6 +183,58 @@ def _one_case_core(ctx, rs, scope, pred, tag):
             return
 
 
+def deterministic_cpt_case(ctx, k):
+    """trees whose tables contain probabilities of exactly 0 and 1 (a variable that copies or negates its parent: log-parameters of
+    -inf, as fitted with alpha = 0 on duplicated columns): tree and circuit against the joint table built from the tables, on every
+    complete and marginal query — a query of probability zero is answered with log 0 (floored or not), never with NaN, and a
+    query of positive probability with its logarithm"""
+    rs = np.random.RandomState(np_seed(ctx.sub_rng('det', k)))
+    preds_small = [p for n_ in range(2, 5) for p in C.all_pred_vectors(n_)]
+    pred = list(preds_small[int(rs.randint(len(preds_small)))])
+    scope = [int(v) for v in rs.choice(len(pred) + 2, len(pred), replace=False)]
+    n = len(scope)
+    clt = C.make_clt(rs, scope, pred)
+    P = np.exp(np.asarray(clt.params, dtype=np.float64))
+    root = pred.index(-1)
+    det = [j for j in range(n) if j != root and rs.rand() < 0.6] or [j for j in range(n) if j != root][:1]
+    for j in det:
+        P[j] = np.array([[1.0, 0.0], [0.0, 1.0]]) if rs.rand() < 0.5 else np.array([[0.0, 1.0], [1.0, 0.0]])
+    with np.errstate(divide='ignore'):
+        clt.params = np.log(P).astype(np.float32)
+    ncols = max(scope) + 1
+    rep = dict(kind='c12-det', k=k, seed=ctx.seed, scope=[int(v) for v in scope], pred=list(pred))
+    ctx.count('trees-with-deterministic-tables')
+    ctx.case('deterministic-cpt', nontrivial_key=('det', k), sample=dict(scope=list(map(int, scope)), pred=list(pred), deterministic=det))
+    joint = {}
+    for bits in itertools.product([0, 1], repeat=n):
+        pr = 1.0
+        for i in range(n):
+            pr *= P[i, 0, bits[i]] if pred[i] < 0 else P[i, bits[pred[i]], bits[i]]
+        joint[bits] = pr
+    pats = list(itertools.product([0, 1, None], repeat=n))
+    X = np.full((len(pats), ncols), np.nan, dtype=np.float32)
+    ref = np.zeros(len(pats))
+    for r, pt in enumerate(pats):
+        for v, val in zip(scope, pt):
+            if val is not None:
+                X[r, v] = val
+        ref[r] = sum(q for b, q in joint.items() if all(pt[i] is None or pt[i] == b[i] for i in range(n)))
+    try:
+        pc = clt.to_pc()
+        ll_pc = np.asarray(log_likelihood(pc, X), dtype=np.float64).reshape(-1)
+        ll_clt = np.asarray(clt.log_likelihood(X[:, clt.scope]), dtype=np.float64).reshape(-1)
+    except Exception as ex:
+        ctx.violation(f'c12-det-raises:{type(ex).__name__}', f'conversion / evaluation raised {type(ex).__name__}: {str(ex)[:160]} on a tree with deterministic tables', replay=rep)
+        return
+    for r in range(len(pats)):
+        for what, v in (('tree', ll_clt[r]), ('circuit', ll_pc[r])):
+            okv = (v <= -1e30) if ref[r] <= 0 else (not np.isnan(v) and abs(v - math.log(ref[r])) <= 5e-4 + 2e-5 * abs(math.log(ref[r])))
+            if np.isnan(v) or not okv:
+                ctx.violation('c12-det-value', f'tree with deterministic tables (variables {det} copy / negate their parent): the {what} answers {float(v)!r} on query '
+                              f'{list(pats[r])}, whose probability by the joint table is {ref[r]!r}', replay=rep)
+                return
+
+
 def run(ctx):
     quick = ctx.tier == 'quick'
     nmax_exh = 4 if quick else 6
@@ -197,6 +249,10 @@ def run(ctx):
             if ctx.n_new(with_input_only=True) >= 3:
                 return
     ctx.extra['exhaustive_tree_shapes_up_to'] = nmax_exh
+    for j in range(20 if quick else 300):
+        deterministic_cpt_case(ctx, j)
+        if ctx.n_new(with_input_only=True) >= 3:
+            return
     for j in range(40 if quick else 600):
         rs = np.random.RandomState(np_seed(ctx.sub_rng('rand', j)))
         n = int(rs.randint(5, 9 if quick else 11))
@@ -228,6 +284,14 @@ def replay(rep):
         from harness.common import replay_demo
         return replay_demo(rep['replay'])
     r = rep['replay']
+    if r.get('kind') == 'c12-det':
+        from harness.common import Ctx
+        c2 = Ctx('C12', 'quick', r['seed'])
+        c2.driver_ok = False
+        deterministic_cpt_case(c2, r['k'])
+        for v in c2.violations:
+            print('  ', v['what'][:300])
+        return not c2.violations
     clt = BinaryCLT(r['scope'], root=r['scope'][r['pred'].index(-1)], tree=r['pred'], params=np.array(r['params'], dtype=np.float32))
     try:
         pc = clt.to_pc()
